@@ -58,7 +58,7 @@ void one_case(Ctx &c) {
       else if (!(st[k].id & 0x80000000u) && !(nid & 0x80000000u)) { refuse = true; if ((nid & 0x7FFFFFFFu) == (st[k].id & 0x7FFFFFFFu)) either = true; }   // valid -> valid: bits 0..29 may not change; identical value: refused or accepted, nothing changes
       VLOG(c, "%s COB-ID := %08X -> %08X", k ? "RPDO" : "TPDO", nid, code);
       if (either) { if (code == 0) { st[k].id = nid; accepted++; if (mode == 3) load(k); } else refused++; }
-      else { verdict(code, refuse, refuse ? 0x06090030u : 0, k ? "1400h:1" : "1800h:1", nid); if (!refuse) { st[k].id = nid; if (mode == 3) load(k); } }
+      else { verdict(code, refuse, 0, k ? "1400h:1" : "1800h:1", nid);   /* the statement names no abort code for COB-ID refusals */ if (!refuse) { st[k].id = nid; if (mode == 3) load(k); } }
     } else if (op == 1) { // transmission type
       static const uint8_t TT[6] = {254, 255, 1, 0, 240, 241}; uint8_t nt = TT[c.t.below(6)];
       uint32_t code = cl.write(com, 2, nt, 1);
@@ -122,7 +122,7 @@ Registrar reg(Prop{
     "C14",
     "Cases: node id 1..127, one TPDO and one RPDO (initially invalid, empty mapping, 4..8 mapping sub-indices present) and candidate objects {mappable RW 8/16/32 bit, mappable read-only, mappable write-only, not mappable}; histories of up to 70 (140) expedited SDO writes to 14xx/16xx/18xx/1Axx sub-indices with values from a covering domain "
     "(valid/invalid bit, id change, EXT and RTR bits, types, counts 0..9, entries naming existing / absent index / absent sub-index / non-mappable / wrong-access objects with lengths 8..64 bit), interleaved with NMT start / pre-operational and activation probes (trigger the TPDO, send the RPDO frame). "
-    "Oracle: rule model: accepted only under the CiA 301 preconditions of the statement, abort code 0609 0030h / 0604 0041h / 0604 0042h where the reason is named (otherwise any abort), every refused write leaves all stored values unchanged, clearly allowed writes are accepted, "
+    "Oracle: rule model: accepted only under the CiA 301 preconditions of the statement, abort code 0604 0041h / 0604 0042h where the reason is named (otherwise any abort), every refused write leaves all stored values unchanged, clearly allowed writes are accepted, "
     "invariant at each activation (<= 8 mapped bytes, all targets exist), and the activated PDO behaves exactly as the stored configuration (frame identifier/DLC/content, RPDO effect via full snapshot). "
     "Non-trivial: >= 1 accepted and >= 1 refused write and an activation after them. Distinct = distinct decoded choice sequence.",
     {Mode{"random", one_case, false, 1000000, 20000000, 0, 0, 300, 600}},
